@@ -74,6 +74,24 @@ pub fn run(ctx: &mut Ctx) {
                 i += step;
             }
         }
+        // mirrored variant: block roots are the highest-numbered nodes, so deep nodes sit below
+        // higher-indexed ancestors
+        let mut ft2: Vec<usize> = (0..t).collect();
+        let mut gs2: Vec<usize> = (0..t).collect();
+        for l in 1..=k {
+            let step = 1usize << l;
+            let mut i = 0;
+            while i < t {
+                ft2.push(i + step - 1);
+                gs2.push(i + step / 2 - 1);
+                i += step;
+            }
+        }
+        {
+            let f = M { w: vec![0; t], x: vec![10], src: vec![vec![0]], tgt: vec![vec![t - 1]], s: vec![0], t: ft2.clone() };
+            let g = M { w: vec![0; t], x: vec![11], src: vec![vec![t - 1]], tgt: vec![vec![0]], s: gs2.clone(), t: vec![t - 1] };
+            chk_compose(ctx, &json!({"f": f.json(), "g": g.json()}));
+        }
         for labels in [vec![0u8; t], (0..t).map(|i| (i % 2) as u8).collect::<Vec<u8>>()] {
             let f = M { w: vec![0; t], x: vec![10], src: vec![vec![0]], tgt: vec![vec![t - 1]], s: vec![0], t: ft.clone() };
             let mut g = M { w: vec![0; t], x: vec![11], src: vec![vec![t - 1]], tgt: vec![vec![0]], s: gs.clone(), t: vec![t - 1] };
